@@ -46,6 +46,8 @@ VARIANTS = {
 
 
 def build(variant, salt, tcp=False):
+    from vlib import tables
+    tables.restore_definitions()  # cases must not depend on what earlier cases left on the shared definition objects
     cfg = dict(VARIANTS[variant])
     cfg["tcp"] = tcp and cfg["family"] != "ES"
     default = (lambda a: mix(salt, a) & 0xFFFF) if salt else 0
@@ -112,15 +114,27 @@ def group_value_ok(got, raw: bytes, tn):
     return True
 
 
-def check_write(acc: Acc, variant, sid, value, salt, tcp=False, counted=False):
-    """value: python value handed to write_setting (for groups: bytes)."""
+def set_prior(sim, setting, word):
+    if isinstance(sim, siminv.Aa55Sim):
+        if setting.offset > 30000:
+            sim.modbus.set(setting.offset, word)
+        else:
+            sim.reg_set(setting.offset, word)
+    else:
+        sim.set(setting.offset, word)
+
+
+def check_write(acc: Acc, variant, sid, value, salt, tcp=False, counted=False, prior_word=None):
+    """value: python value handed to write_setting (for groups: bytes). prior_word: explicit prior content of the first register."""
     acc.case()
     inv, sim = build(variant, salt, tcp)
     setting = inv._settings[sid]
     tn = rs.type_name(setting)
     fam = VARIANTS[variant]["family"]
     case = {"variant": variant, "setting": sid, "value": value if not isinstance(value, datetime) else value.isoformat(),
-            "salt": salt, "tcp": tcp, "type": tn}
+            "salt": salt, "tcp": tcp, "type": tn, "prior_word": prior_word}
+    if prior_word is not None:
+        set_prior(sim, setting, prior_word)
     get, wlog, snap, space = reg_view(sim, setting)
     nregs = (setting.size_ + 1) // 2
     prior = b"".join(get(setting.offset + i).to_bytes(2, "big") for i in range(nregs))
@@ -271,6 +285,28 @@ def sweep_job(job):
     return acc
 
 
+def prior_job(job):
+    """One-byte settings share their register: every value of the OTHER half (and the full-word sentinels) must survive a write."""
+    variant, quick = job
+    acc = Acc()
+    inv, _ = build(variant, 0)
+    for sid in settings_of(variant):
+        setting = inv._settings[sid]
+        if setting.size_ != 1:
+            continue
+        words = set()
+        for other in range(256):
+            for own in (0x00, 0xFF, 0x7F, 0x80):
+                words.add((own << 8 | other) if rs.type_name(setting) == "ByteH" else (other << 8 | own))
+        words |= {0x0000, 0xFFFF, 0x7FFF, 0x8000, 0xFFFE, 0x00FF, 0xFF00}
+        if not quick:
+            words = set(range(65536))
+        for w in sorted(words):
+            for value in ((0, -1) if quick else (0, -1, 1, 127, -128)):
+                check_write(acc, variant, sid, value, 0, tcp=bool(w & 1), counted=True, prior_word=w)
+    return acc
+
+
 def instance_job(job):
     variant, nvals, seed = job
     acc = Acc()
@@ -397,6 +433,9 @@ def run(ctx):
     ctx.shard(sweep_job, jobs, "exhaustive value domains of 1/2-byte settings")
     ctx.exhaustive_parts.append("whole value domain of " + ("one instance of every 1/2-byte setting type (per scale / family)" if ctx.quick
                                                            else "EVERY 1/2-byte setting instance of every variant"))
+    ctx.shard(prior_job, [(v, ctx.quick) for v in VARIANTS], "one-byte settings: every value of the other half of the shared register (quick) / every prior word (thorough)")
+    ctx.exhaustive_parts.append("one-byte settings x all 256 values of the other register half x 4 own-half values + sentinel words" if ctx.quick
+                                else "one-byte settings x all 65,536 prior register words x 5 values")
     n = ctx.pick(2400, 60000)
     ctx.shard(hyp_job, [(ctx.seed * 1000 + i, n // 16) for i in range(16)], "hypothesis (variant, setting, value, prior image)")
     ctx.shard(e2e_job, [(v, ctx.seed) for v in VARIANTS], "end-to-end write + read back on the virtual loop (RTU/UDP, Modbus/TCP, AA55)")
@@ -411,4 +450,4 @@ def replay(ctx, case):
     if case.get("e2e"):
         ctx.acc.merge(e2e_job((case["variant"], case.get("seed", 1))))
         return
-    check_write(ctx.acc, case["variant"], case["setting"], v, case.get("salt", 0), case.get("tcp", False))
+    check_write(ctx.acc, case["variant"], case["setting"], v, case.get("salt", 0), case.get("tcp", False), prior_word=case.get("prior_word"))
